@@ -146,14 +146,12 @@ pub mod state_handle {
     //@   rule R3 *
     //@   req[AsyncHandle::write.pre.ending] self.ending().len() > 0 && self.ending().last() == 10u8
     //@   req[AsyncHandle::write.pre.perm] forall|m: Seq<u8>| #[trigger] send_ok(m) <==> m == fmt_out(self.fmt(), record) + self.ending()
-    //@   closure 1 sig |e: &std::io::Error| -> (r: ())
-    //@   closure 2 sig |e: &std::io::Error| -> (r: ())
     //@   canary
     //@ fn src/writers/file_log_writer/state_handle.rs impl AsyncHandle / fn pop_buffer
     //@   ret r
     //@   props C15
-    //@   closure 1 sig || -> (r: Vec<u8>)
-    //@   closure 1 ens r@.len() == 0
+    //@   closure ~Vec::with_capacity ## sig || -> (r: Vec<u8>)
+    //@   closure ~Vec::with_capacity ## ens r@.len() == 0
     //@   ens[pop_buffer.post.empty] r@.len() == 0
     }
     impl StateHandle {
@@ -163,7 +161,6 @@ pub mod state_handle {
     //@   rule R3 *
     //@   req[plain_write.async.pre.perm] forall|m: Seq<u8>| #[trigger] send_ok(m) <==> (self is Async && m == buffer@ && !is_control(m))
     //@   req[plain_write.async.pre.arm] self is Async
-    //@   closure 2 sig |_u: ()| -> (r: usize)
     //@   ens[plain_write.async.post] r is Ok ==> r->Ok_0 == buffer@.len()
     //@ fn src/writers/file_log_writer/state_handle.rs impl StateHandle / fn flush
     //@   ret r
